@@ -136,6 +136,7 @@ func runC03(r *Run) {
 	c02CompletedThenConnFailWith(r, true)
 	// the status over every shipped transport (topo.go)
 	topoSweep(r, "status")
+	c03EOFShapedFailure(r)
 	// a call abandoned with unread envelopes, then the next call: its outcome is its own handler's (c05b.go)
 	if r.Want("backlog") {
 		c05Backlog(r)
@@ -477,4 +478,62 @@ func c03CloseSendAfterEnd(r *Run) {
 		}
 	}
 	_ = time.Second
+}
+
+// c03EOFShapedFailure: a client-streaming / bidi handler reads its input to the end (it sees the
+// caller's half-close as io.EOF) and then FAILS with a plain error that is, or wraps, io.EOF — a backend
+// read that came up short ("commit batch: unexpected EOF" style). The handler did not return nil: the
+// caller must not be told the stream completed.
+func c03EOFShapedFailure(r *Run) {
+	if !r.Want("eofshaped") {
+		return
+	}
+	errs := map[string]error{
+		"io.EOF":                 io.EOF,
+		"wraps io.EOF":           fmt.Errorf("commit batch: %w", io.EOF),
+		"io.ErrUnexpectedEOF":    io.ErrUnexpectedEOF,
+		"wraps context.Canceled": fmt.Errorf("backend: %w", context.Canceled),
+	}
+	for name, herr := range errs {
+		for _, method := range []string{mBidi, mCliStream} {
+			in := map[string]any{"method": method, "handler_returns": name, "after": "reading its input to the half-close"}
+			r.Progress("eofshaped", in)
+			rig := NewRig(RigOpt{Serialise: true})
+			rig.Impl.SetStream(func(m string, ss grpc.ServerStream) error {
+				for {
+					if _, err := recvB(ss); err != nil {
+						break
+					}
+				}
+				return herr
+			})
+			var term error
+			ok := within(3*hangTimeout, func() {
+				ctx, cancel := context.WithTimeout(context.Background(), 2*hangTimeout)
+				defer cancel()
+				cs, err := rig.CC.NewStream(ctx, descOf(method), method)
+				if err != nil {
+					term = err
+					return
+				}
+				sendB(cs, []byte("m1"))
+				sendB(cs, []byte("m2"))
+				cs.CloseSend()
+				for {
+					if _, e := recvB(cs); e != nil {
+						term = e
+						return
+					}
+				}
+			})
+			r.Eval("eofshaped/"+name+"/"+method, true)
+			r.Count("c03.eofshaped")
+			if !ok {
+				r.Violate("eofshaped.hang", "ops", "the stream did not finish", in, goroutineDump(), nil)
+			} else if term == nil || term == io.EOF {
+				r.Violate("eofshaped.success", "ops", "the handler failed, but the caller was told the stream completed successfully", in, fmt.Sprint(term), "an error status")
+			}
+			rig.Close()
+		}
+	}
 }
